@@ -362,7 +362,7 @@ V("CS1-counter-incremented-twice", "C04", "CS1",
   ("reader.py", "        for segment_index, segment in enumerate(self._segments[start_segment:end_segment + 1], start_segment):\n            self._verify_segment_start(segment)\n",
    "        segment_index = start_segment - 1\n        for segment in self._segments[start_segment:end_segment + 1]:\n            segment_index += 1\n            self._verify_segment_start(segment)\n            if segment.num_chunks == 0:\n                segment_index += 1\n                continue\n"))
 V("BD1-full-chunks-assumed", "C04", "BD1",
-  ("reader.py", "                # Account for segments where the final chunk is truncated\n                final_chunk_size = (segment_end_index - segment_start_index) % chunk_size\n                final_chunk_size = chunk_size if final_chunk_size == 0 else final_chunk_size\n                if num_values_to_trim >= final_chunk_size:\n                    num_chunks -= 1\n                    num_values_to_trim -= final_chunk_size\n\n", ""))
+  ("reader.py", "                if segment.final_chunk_lengths_override is None:\n                    final_chunk_size = chunk_size\n                else:\n                    final_chunk_size = segment.final_chunk_lengths_override.get(channel_path, 0)\n                if num_values_to_trim >= final_chunk_size:\n                    num_chunks -= 1\n                    num_values_to_trim -= final_chunk_size\n\n", ""))
 V("BD1-stop-chunk-ignores-offset", "C04", "BD1",
   ("tdms_segment.py", "        stop_chunk = self.num_chunks if num_chunks is None else num_chunks + chunk_offset\n", "        stop_chunk = self.num_chunks if num_chunks is None else num_chunks\n"))
 V("BD1-index-fetch-to-segment-end", "C04", "BD1",
